@@ -230,6 +230,10 @@ func handleMove(ctx context.Context, g *Game, c Client) bool {
 			g.p = next
 			g.Positions = append(g.Positions, g.p)
 			g.Moves = append(g.Moves, move)
+			// The position changed under the running thinker: whatever
+			// it answers was computed for an earlier position.
+			moveCancel()
+			moves = nil
 			timeout = time.After(500 * time.Millisecond)
 		case "Abandoned.":
 			log.Printf("game-over game-id=%s opponent=%s ply=%d result=abandoned",
